@@ -17,12 +17,23 @@ try:
         r = subprocess.run(['patch', '-p1', '-d', scratch, '-i', patch], capture_output=True, text=True)
         if r.returncode != 0:
             print('PATCH DOES NOT APPLY:', r.stdout[-500:], r.stderr[-500:]); sys.exit(2)
-    env = dict(os.environ, VERIF_REPO=scratch)
+    # private copies of the Lean project (with its build directory), scratch space and evidence directory:
+    # nothing of the real checks' state is touched, so this can run next to them
+    leancopy = os.path.join(scratch, '.verif-lean'); workcopy = os.path.join(scratch, '.verif-work')
+    subprocess.run(['rsync', '-a', os.path.join(VERIF, 'lean') + '/', leancopy + '/'], check=True)
+    os.makedirs(workcopy)
+    env = dict(os.environ, VERIF_REPO=scratch, VERIF_LEAN=leancopy, VERIF_WORK=workcopy)
     for p in props:
         r = subprocess.run([sys.executable, os.path.join(VERIF, 'tools', 'check.py'), p, '--tier', tier], capture_output=True, text=True, env=env, cwd=VERIF)
-        lines = [l for l in r.stdout.splitlines() if l.startswith(('VIOLATION', 'OK ', 'KNOWN', '  ('))]
+        # keep the replay files: they live in the private scratch space that is removed below
+        keep = os.path.join(VERIF, '.work', 'replays'); os.makedirs(keep, exist_ok=True)
+        rd = os.path.join(workcopy, 'replays')
+        out = r.stdout
+        if os.path.isdir(rd):
+            for f in os.listdir(rd):
+                shutil.copy(os.path.join(rd, f), os.path.join(keep, f))
+            out = out.replace(rd, keep)
+        lines = [l for l in out.splitlines() if l.startswith(('VIOLATION', 'OK ', 'KNOWN', '  ('))]
         print('%s rc=%d  %s' % (p, r.returncode, ' | '.join(l[:230] for l in lines[:14])))
 finally:
     shutil.rmtree(scratch, ignore_errors=True)
-    # the generated Lean files must describe /repo again
-    subprocess.run([sys.executable, os.path.join(VERIF, 'tools', 'translate.py')], capture_output=True)
